@@ -84,12 +84,18 @@ Half == DOf(Norm(1, 2))
 PhiAt(e, b) == IF b = e \/ b = e + 1 THEN Half ELSE DZero      \* basis function b at the midpoint of element e (0-based)
 BasisIntegral == [sh |-> <<NB>>, v |-> <<Half, DOne, Half>>]   \* integral of the basis: mode "integral" of Eval
 
+\* eager tuple <<G(i), .., G(n)>>: TLC evaluates [i \in S |-> ..] lazily and re-evaluates the body on every application;
+\* Force makes every array an explicit tuple so that each node of a program is evaluated once
+RECURSIVE SeqTab(_, _, _, _)
+SeqTab(G(_), i, n, acc) == IF i > n THEN acc ELSE SeqTab(G, i + 1, n, Append(acc, G(i)))
+Force(a) == [sh |-> a.sh, v |-> SeqTab(LAMBDA i : a.v[i], 1, Prod(a.sh), <<>>)]
+
 \* argument values: three assignments (g = 1, 2, 3) and an alternative (g = 4) for dependence tests; exact dyadics
 ValOf(g, a, kk) == LET num == ((3 * a + 5 * g + 7 * kk) % 7) - 2
                        den == IF ArgPool[a].dt = "f" /\ (a + g + kk) % 2 = 0 THEN 2 ELSE 1
                    IN DOf(Norm(num, den))
-ArgVal(g, a) == [sh |-> ArgPool[a].sh, v |-> [kk \in 1..Prod(ArgPool[a].sh) |-> ValOf(g, a, kk)]]
-Env(g) == [a \in ArgIds |-> ArgVal(g, a)]
+ArgVal(g, a) == [sh |-> ArgPool[a].sh, v |-> SeqTab(LAMBDA kk : ValOf(g, a, kk), 1, Prod(ArgPool[a].sh), <<>>)]
+Env(g) == SeqTab(LAMBDA a : ArgVal(g, a), 1, Len(ArgPool), <<>>)
 GoodAsg == {1, 2, 3}
 
 \* wrong shapes offered at call time for an argument of shape sh (broadcastable ones first)
@@ -157,8 +163,6 @@ AIntegral(f, withbasis) ==
 RECURSIVE EnvMapFrom(_, _, _)
 EnvMapFrom(U(_), a, acc) == IF a > NArgs THEN acc ELSE EnvMapFrom(U, a + 1, Append(acc, U(a)))
 EnvMap(U(_)) == EnvMapFrom(U, 1, <<>>)
-RECURSIVE SeqTab(_, _, _, _)
-SeqTab(G(_), i, n, acc) == IF i > n THEN acc ELSE SeqTab(G, i + 1, n, Append(acc, G(i)))
 
 PosOf(seq, x) == CHOOSE i \in 1..Len(seq) : seq[i] = x
 InSeq(seq, x) == \E i \in 1..Len(seq) : seq[i] = x
@@ -190,7 +194,8 @@ EvF(N, i, env) ==
       op == n.op
       A(q) == EvF(N, n.d[q], env)
       M(q) == N[n.d[q]]
-  IN CASE op = "Arg" -> env[n.p[1]]
+  IN Force(
+     CASE op = "Arg" -> env[n.p[1]]
        [] op = "Const" -> AConst(n.sh, ConstPool[n.p[1]].p)
        [] op = "Field" -> AField(env[n.p[1]])
        [] op = "Add" -> BinB(A(1), M(1), A(2), M(2), DAdd)
@@ -206,7 +211,7 @@ EvF(N, i, env) ==
        [] op = "Lin" -> LinVal(N, n, env)
        [] op = "Deriv" -> DerivOf(N, n.d[1], n.p[1], env)
        [] op = "Factor" -> IF Mutant = "factor-drops-constant" THEN Map2(A(1), EvF(N, n.d[1], EnvMap(LAMBDA a : Map1(env[a], LAMBDA x : DZero))), DSub) ELSE A(1)
-       [] OTHER -> Assert(FALSE, <<"Subst: unknown op", op>>)
+       [] OTHER -> Assert(FALSE, <<"Subst: unknown op", op>>))
 
 Primal(a) == [sh |-> a.sh, v |-> [i \in 1..Len(a.v) |-> a.v[i][1]]]
 AnyBad(a) == \E i \in 1..Len(a.v) : DIsBad(a.v[i])
@@ -228,6 +233,7 @@ BinaryOp(op) ==
     /\ \E ij \in Pairs :
          LET a == Nd(ij[1]) b == Nd(ij[2]) IN
          /\ a.sh = b.sh \/ a.sh = <<>> \/ b.sh = <<>>
+         /\ ij[2] = L                      \* Add and Mul are commutative: one operand order
          /\ DegOK(IF op = "Add" THEN MaxI(a.dg, b.dg) ELSE a.dg + b.dg)
          /\ Push(Node(op, <<ij[1], ij[2]>>, <<>>, "", IF a.sh = <<>> THEN b.sh ELSE a.sh, PromDt(a.dt, b.dt), a.sp \/ b.sp,
                       a.fv \cup b.fv, IF op = "Add" THEN MaxI(a.dg, b.dg) ELSE a.dg + b.dg, MaxI(a.nd, b.nd)))
